@@ -5,6 +5,7 @@ import (
 	"fmt"
 	"os"
 	"os/exec"
+	"runtime"
 	"sort"
 	"strconv"
 	"strings"
@@ -291,11 +292,29 @@ func RunHistory(nick, user string, evs []Ev) (obs, oracle string, ss *StateSessi
 	ss = StartState(nick, user)
 	mark := ss.Mark()
 	for i, e := range evs {
-		ss.Apply(e)
+		// RunHandlers returns when every foreground handler has returned; with a leaked state
+		// lock the next handler never does, so the call is watched from outside.
+		returned := make(chan struct{})
+		go func(e Ev) { ss.Apply(e); close(returned) }(e)
+		started := time.Now()
+	wait:
+		for {
+			select {
+			case <-returned:
+				break wait
+			case <-time.After(500 * time.Millisecond):
+				if !StateLockFree(ss.C, 400*time.Millisecond) {
+					return "WEDGED", fmt.Sprintf("wedge: the handlers of event %d (%s) block on a state lock that is never released", i, e.Cmd), ss
+				}
+				if time.Since(started) > 20*time.Second {
+					return "NOPONG", fmt.Sprintf("liveness: the handlers of event %d (%s) did not return", i, e.Cmd), ss
+				}
+			}
+		}
 		if ss.PanicCount() > 0 {
 			return "PANIC", fmt.Sprintf("panic: handler panicked on event %d (%s %q)", i, e.Cmd, e.Params), ss
 		}
-		if !StateLockFree(ss.C, 3*time.Second) {
+		if !StateLockFree(ss.C, 400*time.Millisecond) {
 			return "WEDGED", fmt.Sprintf("wedge: state lock still held after event %d (%s)", i, e.Cmd), ss
 		}
 	}
@@ -311,18 +330,20 @@ func RunHistory(nick, user string, evs []Ev) (obs, oracle string, ss *StateSessi
 	return obs, oracle, ss
 }
 
-// StateLockFree reports whether the state lock can be taken within d. A background
-// handler (CTCP replier, welcome handler) may hold the lock for an instant, so one failed
-// TryLock is not a wedge; a lock that stays held for seconds after the handlers returned is.
+// StateLockFree reports whether the state lock can be taken. A background handler (CTCP
+// replier, welcome handler) may hold the lock for an instant, so one failed TryLock is not
+// a wedge: the verdict "held" needs at least 300 failed attempts, each followed by a yield
+// to the holder, spread over at least d. A lock leaked by a handler stays held for ever.
 func StateLockFree(c *girc.Client, d time.Duration) bool {
-	deadline := time.Now().Add(d)
-	for {
+	start := time.Now()
+	for n := 0; ; n++ {
 		if c.VerifTryStateLock() {
 			return true
 		}
-		if time.Now().After(deadline) {
+		if n >= 300 && time.Since(start) >= d {
 			return false
 		}
+		runtime.Gosched()
 		time.Sleep(200 * time.Microsecond)
 	}
 }
@@ -422,9 +443,15 @@ func RunConnected(nick, user string, evs []Ev, opt ConnOptions) (obs, oracle str
 		cfg.RecoverFunc = func(c *girc.Client, e *girc.HandlerError) { panic(e) }
 	}
 	ss := drive.Start(cfg)
-	defer ss.Stop()
+	healthy := true // after a wedge / missing PONG verdict the client is abandoned, not stopped
+	defer func() {
+		if healthy {
+			ss.Stop()
+		}
+	}()
 	mark := ss.Mark()
 	seq := 0
+	wedged := false
 	var gone bool  // the pipe is closed or Connect has returned
 	var ended bool // Connect's result has been received
 	var derr error
@@ -448,7 +475,8 @@ func RunConnected(nick, user string, evs []Ev, opt ConnOptions) (obs, oracle str
 			return false
 		}
 		want := "PONG " + tok + "\r\n"
-		deadline := time.Now().Add(10 * time.Second)
+		sent := time.Now()
+		deadline := sent.Add(10 * time.Second)
 		for {
 			if pollDone(); gone {
 				return false
@@ -459,6 +487,12 @@ func RunConnected(nick, user string, evs []Ev, opt ConnOptions) (obs, oracle str
 				}
 			}
 			if time.Now().After(deadline) {
+				return false
+			}
+			// no answer for half a second and the state lock is held all the time: a handler
+			// returned (or died) with the lock held and every later handler blocks on it
+			if time.Since(sent) > 500*time.Millisecond && !StateLockFree(ss.C, 400*time.Millisecond) {
+				wedged = true
 				return false
 			}
 			time.Sleep(100 * time.Microsecond)
@@ -492,8 +526,13 @@ func RunConnected(nick, user string, evs []Ev, opt ConnOptions) (obs, oracle str
 	if ss.PanicCount() > 0 {
 		return "PANIC", "panic: a handler panicked during the history"
 	}
+	if wedged {
+		healthy = false
+		return "WEDGED", "wedge: the state lock stays held and a PING is no longer answered"
+	}
 	if alive {
-		if !StateLockFree(ss.C, 3*time.Second) {
+		if !StateLockFree(ss.C, 400*time.Millisecond) {
+			healthy = false
 			return "WEDGED", "wedge: state lock still held after the history"
 		}
 		obs = DumpState(ss.C) + ";w=" + WrittenNoSentinels(ss.Since(mark))
@@ -509,6 +548,7 @@ func RunConnected(nick, user string, evs []Ev, opt ConnOptions) (obs, oracle str
 		time.Sleep(200 * time.Microsecond)
 	}
 	if !ended {
+		healthy = false
 		return "NOPONG", "liveness: after the history the client neither answered a PING nor returned from Connect"
 	}
 	if derr == nil {
